@@ -1,7 +1,7 @@
 (** C17 — the error traceback. *)
 From Coq Require Import List ZArith Bool.
 From MX Require Import Exec.Model Exec.Spec Exec.Sim Exec.Results Exec.Top Exec.Chain Exec.Sim3
-  Exec.Cover Exec.Quiet Exec.Edits4 Exec.Edits6.
+  Exec.Cover Exec.Quiet Exec.Edits4 Exec.Edits6 Exec.FinMask.
 Import ListNotations.
 
 (** The specification of the traceback is [Chain.spec_chain]: the
@@ -15,9 +15,13 @@ Import ListNotations.
     evaluation records exactly the specification's error and exactly the
     specification's chain, and leaves nothing in the rolled-back list.
     Excluded: the recursion-depth error [KDeep] (it depends on the executor's
-    stack limit, which the specification does not have). *)
+    stack limit, which the specification does not have) and, since a failing
+    clean-up of a try/finally replaces ANY pending failure, the requests
+    during which it replaced that error ([s_masks] unchanged: the ghost
+    counter of these events; trivially so without [SFin]; [Exec/FinMask.v]
+    refutes the statement without it). *)
 Theorem C17_traceback_exact : forall fuel st i k st',
-  eval_top fuel st i = (Err k, st') -> k <> KDeep -> Inv st ->
+  eval_top fuel st i = (Err k, st') -> k <> KDeep -> s_masks st' = s_masks st -> Inv st ->
   lookup_cell (s_cells st) (fst i) <> None ->
   forall g rc cc, spec_chain g (defs_of st) (input_data st) i = (rc, cc) -> rc <> OutOfFuel ->
   rc = Err k /\ s_err st' = Some (k, cc) /\ s_rolled st' = [].
@@ -29,7 +33,7 @@ Print Assumptions C17_traceback_exact.
 Theorem C17_exact_after_any_evaluations : forall fuel cells refs maxd ops xs st i k st',
   forallb is_eval ops = true ->
   run fuel (init cells refs maxd) ops = (xs, st) -> no_fuel_out xs ->
-  eval_top fuel st i = (Err k, st') -> k <> KDeep -> lookup_cell cells (fst i) <> None ->
+  eval_top fuel st i = (Err k, st') -> k <> KDeep -> s_masks st' = s_masks st -> lookup_cell cells (fst i) <> None ->
   forall g rc cc, spec_chain g (cells, refs) [] i = (rc, cc) -> rc <> OutOfFuel ->
   rc = Err k /\ s_err st' = Some (k, cc) /\ s_rolled st' = [].
 Proof. exact traceback_exact_after_evals. Qed.
@@ -40,7 +44,7 @@ Print Assumptions C17_exact_after_any_evaluations.
 Theorem C17_exact_after_any_history : forall fuel cells refs maxd ops xs st i k st',
   refn_ok (init cells refs maxd) -> ops_ok2 fuel (init cells refs maxd) ops ->
   run fuel (init cells refs maxd) ops = (xs, st) -> no_fuel_out xs -> s_reent st = false ->
-  eval_top fuel st i = (Err k, st') -> k <> KDeep -> lookup_cell (s_cells st) (fst i) <> None ->
+  eval_top fuel st i = (Err k, st') -> k <> KDeep -> s_masks st' = s_masks st -> lookup_cell (s_cells st) (fst i) <> None ->
   forall g rc cc, spec_chain g (defs_of st) (input_data st) i = (rc, cc) -> rc <> OutOfFuel ->
   rc = Err k /\ s_err st' = Some (k, cc) /\ s_rolled st' = [].
 Proof. exact traceback_exact_after_history. Qed.
